@@ -4,11 +4,16 @@ package main
 
 import (
 	"bytes"
+	"compress/gzip"
 	"encoding/csv"
 	"encoding/hex"
 	"encoding/json"
 	"fmt"
+	"io"
 	"math/rand"
+	"os"
+	"path/filepath"
+	"sort"
 	"strconv"
 	"strings"
 	"sync"
@@ -16,9 +21,18 @@ import (
 
 	"git.metabarcoding.org/obitools/obitools4/obitools4/pkg/obiformats"
 	"git.metabarcoding.org/obitools/obitools4/obitools4/pkg/obiiter"
+	"git.metabarcoding.org/obitools/obitools4/obitools4/pkg/obioptions"
 	"git.metabarcoding.org/obitools/obitools4/obitools4/pkg/obiseq"
 )
 
+// Case lines (generator form; Exec appends ` | <data for the model>` and ignores it on replay):
+//
+//	<writer> w=<workers> z=<0|1> se=<0|1> csv=<6 bits id,count,taxon,def,seq,qual> na=<hex> keys=<hex>/…|~ f=<flavour> p=<0|1> <order>:<n>:<L> …
+//
+// chunks are listed in arrival order; <n> records; <L> = 0 random sequence lengths 1..70, N = every sequence
+// N bases long, b<d> = the first sequence is as long as needed for the formatted chunk to be the shortest one
+// of at least 4096+d bytes (d written m<k> / p<k>): the chunk sizes straddle the bufio buffer of Wfile.
+// p=1: the writer is reached through Write…ToFile with a paired file (two files kept in step).
 type c04 struct{}
 
 func init() { props["C04"] = c04{} }
@@ -46,64 +60,553 @@ func (s *sink) Close() error {
 	return nil
 }
 
-// c04Record is record j of batch k: content is a pure function of (k, j).
-func c04Record(k, j int, withQual bool) *obiseq.BioSequence {
-	r := rand.New(rand.NewSource(int64(k*1000 + j + 7)))
+// ---- annotation values: a tree the harness can turn into Go values and into the model's encoding ----
+
+type c04val struct {
+	kind byte // s i b l m
+	s    string
+	i    int
+	b    bool
+	l    []c04val
+	m    []c04kv // any order
+	typ  int     // for l/m: which Go type carries it
+}
+type c04kv struct {
+	k string
+	v c04val
+}
+
+func vs(s string) c04val { return c04val{kind: 's', s: s} }
+func vi(i int) c04val    { return c04val{kind: 'i', i: i} }
+func vb(b bool) c04val   { return c04val{kind: 'b', b: b} }
+
+func (v c04val) toGo() interface{} {
+	switch v.kind {
+	case 's':
+		return v.s
+	case 'i':
+		return v.i
+	case 'b':
+		return v.b
+	case 'l':
+		allS, allI := true, true
+		for _, e := range v.l {
+			allS = allS && e.kind == 's'
+			allI = allI && e.kind == 'i'
+		}
+		if allS && v.typ%2 == 0 {
+			r := make([]string, len(v.l))
+			for i, e := range v.l {
+				r[i] = e.s
+			}
+			return r
+		}
+		if allI && v.typ%2 == 0 {
+			r := make([]int, len(v.l))
+			for i, e := range v.l {
+				r[i] = e.i
+			}
+			return r
+		}
+		r := make([]interface{}, len(v.l))
+		for i, e := range v.l {
+			r[i] = e.toGo()
+		}
+		return r
+	default:
+		allS, allI := true, true
+		for _, e := range v.m {
+			allS = allS && e.v.kind == 's'
+			allI = allI && e.v.kind == 'i'
+		}
+		if allI && v.typ%2 == 0 {
+			r := map[string]int{}
+			for _, e := range v.m {
+				r[e.k] = e.v.i
+			}
+			return r
+		}
+		if allS && v.typ%2 == 0 {
+			r := map[string]string{}
+			for _, e := range v.m {
+				r[e.k] = e.v.s
+			}
+			return r
+		}
+		r := map[string]interface{}{}
+		for _, e := range v.m {
+			r[e.k] = e.v.toGo()
+		}
+		return r
+	}
+}
+
+func hx0(s string) string { return hex.EncodeToString([]byte(s)) }
+
+func (v c04val) enc(sb *strings.Builder) {
+	switch v.kind {
+	case 's':
+		sb.WriteString("s" + hx0(v.s) + ".")
+	case 'i':
+		if v.i < 0 {
+			sb.WriteString("in" + strconv.Itoa(-v.i) + ".")
+		} else {
+			sb.WriteString("i" + strconv.Itoa(v.i) + ".")
+		}
+	case 'b':
+		if v.b {
+			sb.WriteString("t")
+		} else {
+			sb.WriteString("f")
+		}
+	case 'l':
+		sb.WriteString("l" + strconv.Itoa(len(v.l)) + ".")
+		for _, e := range v.l {
+			e.enc(sb)
+		}
+	default:
+		sb.WriteString("m" + strconv.Itoa(len(v.m)) + ".")
+		for _, e := range v.m {
+			sb.WriteString(hx0(e.k) + ".")
+			e.v.enc(sb)
+		}
+	}
+}
+
+type c04rec struct {
+	id   string
+	seq  []byte
+	qual []byte // nil = none
+	ann  []c04kv
+}
+
+func (r c04rec) build() *obiseq.BioSequence {
+	s := obiseq.NewBioSequence(r.id, append([]byte{}, r.seq...), "")
+	for _, e := range r.ann {
+		s.SetAttribute(e.k, e.v.toGo())
+	}
+	if r.qual != nil {
+		s.SetQualities(append([]byte{}, r.qual...))
+	}
+	return s
+}
+
+var c04nasty = []string{"a,b", "x\"y", " lead", "\ttab", "multi\nline", "cr\rlf", "crlf\r\nx", "\\.", "", "é", " nbsp",
+	" ls", "<a&b>", "back\\slash", "],[", "{z}", "trail ", "\"\"", ",", "\n", "\"", "plain", "a b", "\r", "x\r\n", "　w", "'", "a;b:c"}
+
+// strings on which the unrepaired JSONRecord produced invalid JSON / panicked
+var c04hostile = []string{"a\x01b", "\b\f", "\x1f", "\x7f", "a\\u0041b", "a\\ub", "\\u", "\\\\u0031", "\x00", "\\u00e9\\n"}
+
+var c04keys = []string{"note", "k,ey", "q\"k", "sample", "a b", "tag", "zz", "definition", "scientific_name", "é"}
+
+func c04randVal(r *rand.Rand, flavour, depth int) c04val {
+	pool := c04nasty
+	if flavour >= 3 && r.Intn(2) == 0 {
+		pool = c04hostile
+	}
+	switch k := r.Intn(10); {
+	case k < 5 || depth > 2:
+		return vs(pool[r.Intn(len(pool))])
+	case k == 5:
+		return vi(r.Intn(2000) - 1000)
+	case k == 6:
+		return vb(r.Intn(2) == 0)
+	case k == 7 || k == 8:
+		n := r.Intn(4)
+		v := c04val{kind: 'l', typ: r.Intn(2)}
+		hom := r.Intn(3)
+		for i := 0; i < n; i++ {
+			switch hom {
+			case 0:
+				v.l = append(v.l, vs(pool[r.Intn(len(pool))]))
+			case 1:
+				v.l = append(v.l, vi(r.Intn(100)-50))
+			default:
+				v.l = append(v.l, c04randVal(r, flavour, depth+1))
+			}
+		}
+		return v
+	default:
+		n := r.Intn(4)
+		v := c04val{kind: 'm', typ: r.Intn(2)}
+		hom := r.Intn(3)
+		for _, j := range r.Perm(len(c04keys))[:n] {
+			var e c04val
+			switch hom {
+			case 0:
+				e = vs(pool[r.Intn(len(pool))])
+			case 1:
+				e = vi(r.Intn(100) - 50)
+			default:
+				e = c04randVal(r, flavour, depth+1)
+			}
+			v.m = append(v.m, c04kv{c04keys[j], e})
+		}
+		return v
+	}
+}
+
+// c04Record is record j of batch k: a pure function of (k, j, L, flavour, withQual).
+func c04Record(k, j, L, flavour int, withQual bool) c04rec {
+	r := rand.New(rand.NewSource(int64(k*100003 + j*17 + flavour + 7)))
 	n := 1 + r.Intn(70)
 	if r.Intn(5) == 0 {
 		n = 59 + r.Intn(4)
+	}
+	if L > 0 {
+		n = L
+	}
+	if L < 0 {
+		n = 0 // empty sequence
 	}
 	sq := make([]byte, n)
 	for i := range sq {
 		sq[i] = "acgt"[r.Intn(4)]
 	}
-	s := obiseq.NewBioSequence(fmt.Sprintf("s%d_%d", k, j), sq, "")
-	if r.Intn(2) == 0 {
-		s.SetAttribute("count", 1+r.Intn(50))
+	rec := c04rec{id: fmt.Sprintf("s%d_%d", k, j), seq: sq}
+	if flavour >= 2 && r.Intn(3) == 0 {
+		rec.id += []string{",x", "\"q\"", ";", "é", "'", "\\"}[r.Intn(6)]
 	}
-	if r.Intn(3) == 0 {
-		s.SetAttribute("note", []string{"a,b", "x\"y", "{z}", "plain", "],["}[r.Intn(5)])
+	if flavour >= 1 {
+		if r.Intn(2) == 0 {
+			rec.ann = append(rec.ann, c04kv{"count", vi(1 + r.Intn(50))})
+		}
+		if r.Intn(3) == 0 {
+			rec.ann = append(rec.ann, c04kv{"note", vs([]string{"a,b", "x\"y", "{z}", "plain", "],["}[r.Intn(5)])})
+		}
+	}
+	if flavour >= 2 {
+		if r.Intn(3) == 0 {
+			rec.ann = append(rec.ann, c04kv{"taxid", vi(1 + r.Intn(3))})
+		}
+		has := map[string]bool{"note": true}
+		for i := r.Intn(4); i > 0; i-- {
+			k := c04keys[r.Intn(len(c04keys))]
+			if has[k] {
+				continue
+			}
+			has[k] = true
+			rec.ann = append(rec.ann, c04kv{k, c04randVal(r, flavour, 0)})
+		}
+		r.Shuffle(len(rec.ann), func(a, b int) { rec.ann[a], rec.ann[b] = rec.ann[b], rec.ann[a] })
 	}
 	if withQual {
 		q := make([]byte, n)
 		for i := range q {
 			q[i] = byte(r.Intn(42))
 		}
-		s.SetQualities(q)
+		if flavour >= 2 && r.Intn(8) == 0 && n > 0 {
+			q[r.Intn(n)] = byte(90 + r.Intn(20)) // above the clamp
+		}
+		rec.qual = q
 	}
-	return s
+	return rec
 }
 
-func c04Batch(k, n int, withQual bool) obiiter.BioSequenceBatch {
-	sl := obiseq.MakeBioSequenceSlice()
-	for j := 0; j < n; j++ {
-		sl = append(sl, c04Record(k, j, withQual))
+type c04chunk struct {
+	order, n int
+	l        string
+}
+
+type c04case struct {
+	w        string
+	workers  int
+	z        bool
+	se       bool
+	csvBits  string
+	na       string
+	keys     []string
+	flavour  int
+	paired   bool
+	arrival  []c04chunk
+	withQual bool
+}
+
+func (c *c04case) options() []obiformats.WithOption {
+	o := []obiformats.WithOption{obiformats.OptionsParallelWorkers(c.workers), obiformats.OptionCloseFile(),
+		obiformats.OptionsCompressed(c.z), obiformats.OptionsSkipEmptySequence(c.se)}
+	if c.w == "csv" {
+		b := func(i int) bool { return c.csvBits[i] == '1' }
+		o = append(o, obiformats.CSVId(b(0)), obiformats.CSVCount(b(1)), obiformats.CSVTaxon(b(2)), obiformats.CSVDefinition(b(3)),
+			obiformats.CSVSequence(b(4)), obiformats.CSVQuality(b(5)), obiformats.CSVNAValue(c.na), obiformats.CSVKeys(c.keys))
 	}
-	return obiiter.MakeBioSequenceBatch("src", k, sl)
+	return o
+}
+
+func c04parse(line string) (*c04case, bool) {
+	f := strings.Fields(line)
+	if len(f) < 1 {
+		return nil, false
+	}
+	c := &c04case{w: f[0], workers: 1, csvBits: "100010", na: "NA"}
+	switch c.w {
+	case "fasta", "fastq", "json", "csv":
+	default:
+		return nil, false
+	}
+	c.withQual = c.w == "fastq"
+	for _, t := range f[1:] {
+		if t == "|" {
+			break
+		}
+		if i := strings.IndexByte(t, '='); i > 0 {
+			k, v := t[:i], t[i+1:]
+			switch k {
+			case "w":
+				n, err := strconv.Atoi(v)
+				if err != nil || n < 1 || n > 64 {
+					return nil, false
+				}
+				c.workers = n
+			case "z":
+				c.z = v == "1"
+			case "se":
+				c.se = v == "1"
+			case "p":
+				c.paired = v == "1"
+			case "q":
+				c.withQual = v == "1"
+			case "csv":
+				if len(v) != 6 {
+					return nil, false
+				}
+				c.csvBits = v
+			case "na":
+				b, ok := unhx(v)
+				if !ok {
+					return nil, false
+				}
+				c.na = string(b)
+			case "keys":
+				if v != "~" {
+					for _, h := range strings.Split(v, "/") {
+						b, ok := unhx(h)
+						if !ok {
+							return nil, false
+						}
+						c.keys = append(c.keys, string(b))
+					}
+				}
+			case "f":
+				n, err := strconv.Atoi(v)
+				if err != nil {
+					return nil, false
+				}
+				c.flavour = n
+			default:
+				return nil, false
+			}
+			continue
+		}
+		q := strings.Split(t, ":")
+		if len(q) < 2 {
+			return nil, false
+		}
+		o, e1 := strconv.Atoi(q[0])
+		n, e2 := strconv.Atoi(q[1])
+		if e1 != nil || e2 != nil || o < 0 || n < 0 {
+			return nil, false
+		}
+		l := "0"
+		if len(q) > 2 {
+			l = q[2]
+		}
+		c.arrival = append(c.arrival, c04chunk{o, n, l})
+	}
+	if c.w == "fastq" {
+		c.withQual = true
+	}
+	return c, true
+}
+
+// records of chunk ch (descriptions); the boundary form b<d> is resolved with the real formatter
+func (c *c04case) records(ch c04chunk, opt obiformats.Options) []c04rec {
+	mk := func(l0 int) []c04rec {
+		rs := make([]c04rec, ch.n)
+		for j := range rs {
+			L := 0
+			if j == 0 {
+				L = l0
+			}
+			rs[j] = c04Record(ch.order, j, L, c.flavour, c.withQual)
+		}
+		return rs
+	}
+	if strings.HasPrefix(ch.l, "b") && ch.n > 0 {
+		d, _ := strconv.Atoi(ch.l[2:])
+		if ch.l[1] == 'm' {
+			d = -d
+		}
+		target := 4096 + d
+		lo, hi := 1, 9000
+		for lo < hi {
+			mid := (lo + hi) / 2
+			t, _ := c.format(ch.order, mk(mid), opt)
+			if len(t) >= target {
+				hi = mid
+			} else {
+				lo = mid + 1
+			}
+		}
+		return mk(lo)
+	}
+	if ch.l == "e" { // the second record (the first when alone) has an empty sequence
+		rs := mk(0)
+		if len(rs) > 0 {
+			rs[len(rs)/2] = c04Record(ch.order, len(rs)/2, -1, c.flavour, c.withQual)
+		}
+		return rs
+	}
+	L, _ := strconv.Atoi(ch.l)
+	rs := make([]c04rec, ch.n)
+	for j := range rs {
+		rs[j] = c04Record(ch.order, j, L, c.flavour, c.withQual)
+	}
+	return rs
+}
+
+func c04batch(order int, rs []c04rec) obiiter.BioSequenceBatch {
+	sl := obiseq.MakeBioSequenceSlice()
+	for _, r := range rs {
+		sl = append(sl, r.build())
+	}
+	return obiiter.MakeBioSequenceBatch("src", order, sl)
+}
+
+// format runs the real per-batch formatter on fresh copies of the records
+func (c *c04case) format(order int, rs []c04rec, opt obiformats.Options) ([]byte, string) {
+	var t []byte
+	res := guardT(10*time.Second, func() string {
+		b := c04batch(order, rs)
+		switch c.w {
+		case "fasta":
+			t = obiformats.FormatFastaBatch(b, opt.FormatFastSeqHeader(), opt.SkipEmptySequence()).Bytes()
+		case "fastq":
+			t = obiformats.FormatFastqBatch(b, opt.FormatFastSeqHeader(), opt.SkipEmptySequence()).Bytes()
+		case "json":
+			t = obiformats.FormatJSONBatch(b)
+		case "csv":
+			t = obiformats.FormatCVSBatch(b, opt)
+		}
+		return "ok"
+	})
+	return append([]byte{}, t...), res
 }
 
 func (c04) Gen(rng *rand.Rand, tier string, emit func(string)) {
 	writers := []string{"fasta", "fastq", "json", "csv"}
-	one := func(w string, workers int, orders []int, sizes map[int]int) {
-		parts := make([]string, len(orders))
-		for i, o := range orders {
-			parts[i] = fmt.Sprintf("%d:%d:-", o, sizes[o])
+	type gopt struct {
+		workers, flavour int
+		z, se, paired    bool
+		csv              string
+	}
+	one := func(w string, g gopt, ch []c04chunk) {
+		parts := make([]string, len(ch))
+		for i, c := range ch {
+			l := c.l
+			if l == "" {
+				l = "0"
+			}
+			parts[i] = fmt.Sprintf("%d:%d:%s", c.order, c.n, l)
 		}
-		emit(fmt.Sprintf("%s w=%d %s", w, workers, strings.Join(parts, " ")))
+		b2 := func(b bool) int {
+			if b {
+				return 1
+			}
+			return 0
+		}
+		extra := ""
+		if w == "csv" {
+			extra = " " + g.csv
+			if g.csv == "" {
+				extra = " csv=100010 na=4e41 keys=~"
+			}
+		}
+		if g.workers == 0 {
+			g.workers = 1
+		}
+		emit(fmt.Sprintf("%s w=%d z=%d se=%d%s f=%d p=%d %s", w, g.workers, b2(g.z), b2(g.se), extra, g.flavour, b2(g.paired), strings.Join(parts, " ")))
+	}
+	simple := func(orders []int, sizes map[int]int) []c04chunk {
+		ch := make([]c04chunk, len(orders))
+		for i, o := range orders {
+			ch[i] = c04chunk{o, sizes[o], "0"}
+		}
+		return ch
+	}
+	randCsv := func() string {
+		bits := []byte("100010")
+		for i := range bits {
+			if rng.Intn(3) == 0 {
+				bits[i] = '0' + byte(rng.Intn(2))
+			}
+		}
+		if rng.Intn(4) != 0 {
+			bits[0] = '1'
+		}
+		pool := append([]string{"nope", "id", "sequence", "qualities", "count", "taxid"}, c04keys...)
+		var ks []string
+		for _, j := range rng.Perm(len(pool))[:rng.Intn(5)] {
+			ks = append(ks, hx0(pool[j]))
+		}
+		keys := "~"
+		if len(ks) > 0 {
+			keys = strings.Join(ks, "/")
+		}
+		if string(bits) == "000000" && keys == "~" {
+			bits[0] = '1'
+		}
+		na := []string{"NA", "NA", "", "n,a", " na", "\"", "-"}[rng.Intn(7)]
+		return fmt.Sprintf("csv=%s na=%s keys=%s", bits, hx([]byte(na)), keys)
 	}
 	// corpus: the arrival orders that exercise drain-after-turn and empty batches
 	for _, w := range writers {
-		one(w, 1, []int{1, 0, 2}, map[int]int{0: 1, 1: 1, 2: 1})
-		one(w, 1, []int{2, 1, 0}, map[int]int{0: 2, 1: 0, 2: 1})
-		one(w, 1, []int{0, 1, 2}, map[int]int{0: 0, 1: 1, 2: 0})
-		one(w, 1, []int{1, 0}, map[int]int{0: 0, 1: 0})
-		one(w, 1, []int{}, map[int]int{})
-		one(w, 1, []int{0}, map[int]int{0: 0})
+		for _, z := range []bool{false, true} {
+			g := gopt{flavour: 1, z: z}
+			one(w, g, simple([]int{1, 0, 2}, map[int]int{0: 1, 1: 1, 2: 1}))
+			one(w, g, simple([]int{2, 1, 0}, map[int]int{0: 2, 1: 0, 2: 1}))
+			one(w, g, simple([]int{0, 1, 2}, map[int]int{0: 0, 1: 1, 2: 0}))
+			one(w, g, simple([]int{1, 0}, map[int]int{0: 0, 1: 0}))
+			one(w, g, simple([]int{}, map[int]int{}))
+			one(w, g, simple([]int{0}, map[int]int{0: 0}))
+			// header line / first element when the first batches are empty or arrive late
+			one(w, g, simple([]int{2, 1, 0, 3}, map[int]int{0: 0, 1: 0, 2: 2, 3: 1}))
+			one(w, g, simple([]int{3, 2, 1, 0}, map[int]int{0: 0, 1: 2, 2: 0, 3: 0}))
+		}
+		// records that broke the unrepaired JSON formatter (control characters, a literal backslash-u)
+		one(w, gopt{flavour: 3}, simple([]int{1, 0}, map[int]int{0: 3, 1: 3}))
+		one(w, gopt{flavour: 3, csv: "csv=111111 na=4e41 keys=" + hx0("note") + "/" + hx0("tag") + "/" + hx0("nope")}, simple([]int{0, 2, 1}, map[int]int{0: 4, 1: 4, 2: 4}))
+		// empty sequences: skipped / fatal
+		one(w, gopt{flavour: 1, se: true}, []c04chunk{{0, 3, "e"}, {1, 1, "e"}, {2, 2, "0"}})
+		one(w, gopt{flavour: 1, se: false}, []c04chunk{{0, 3, "e"}})
+		// chunk sizes straddling the 4096-byte buffer of the output wrapper: small/LARGE/small, LARGE/small/LARGE, boundary
+		for _, z := range []bool{false, true} {
+			g := gopt{flavour: 1, z: z}
+			one(w, g, []c04chunk{{0, 1, "0"}, {1, 2, "3000"}, {2, 1, "0"}})
+			one(w, g, []c04chunk{{1, 2, "3000"}, {0, 1, "0"}, {2, 1, "0"}})
+			one(w, g, []c04chunk{{0, 2, "2500"}, {1, 1, "0"}, {2, 3, "2500"}})
+			one(w, g, []c04chunk{{0, 0, "0"}, {1, 1, "5000"}, {2, 0, "0"}, {3, 1, "0"}})
+			for _, b := range []string{"bm1", "bp0", "bp1", "bm2", "bp2"} {
+				one(w, g, []c04chunk{{0, 1, "0"}, {1, 1, b}, {2, 2, "0"}})
+				one(w, g, []c04chunk{{0, 1, b}, {1, 1, "0"}, {2, 1, b}})
+			}
+		}
+		// many workers, large batches: a formatter handing out a buffer reused by another worker shows as corrupted text
+		for _, nw := range []int{16, 5} {
+			var ch []c04chunk
+			for k := 0; k < 24; k++ {
+				ch = append(ch, c04chunk{k, 12 + k%7, "0"})
+			}
+			one(w, gopt{workers: nw, flavour: 2, csv: "csv=111111 na=4e41 keys=" + hx0("note") + "/" + hx0("sample")}, ch)
+		}
+		// paired output: two files kept in step
+		one(w, gopt{flavour: 1, paired: true}, simple([]int{1, 0, 2}, map[int]int{0: 2, 1: 1, 2: 0}))
+		one(w, gopt{flavour: 2, paired: true, z: true}, []c04chunk{{0, 1, "0"}, {2, 2, "3000"}, {1, 1, "0"}})
 	}
 	if tier == "thorough" {
-		// every permutation of 0..n-1 for n <= 5 with two emptiness patterns, one formatting worker
+		// every permutation of 0..n-1 for n <= 6 (n <= 5 with two emptiness patterns), one formatting worker
 		for _, w := range writers {
-			for n := 1; n <= 5; n++ {
+			for n := 1; n <= 6; n++ {
 				perm := make([]int, n)
 				for i := range perm {
 					perm[i] = i
@@ -111,16 +614,20 @@ func (c04) Gen(rng *rand.Rand, tier string, emit func(string)) {
 				var rec func(i int)
 				rec = func(i int) {
 					if i == n {
-						for pat := 0; pat < 2; pat++ {
+						npat := 2
+						if n == 6 {
+							npat = 1
+						}
+						for pat := 0; pat < npat; pat++ {
 							sz := map[int]int{}
 							for k := 0; k < n; k++ {
-								if pat == 0 {
+								if pat == 1 {
 									sz[k] = 1
 								} else {
 									sz[k] = (k + rng.Intn(2)) % 2
 								}
 							}
-							one(w, 1, append([]int{}, perm...), sz)
+							one(w, gopt{flavour: 1, z: n == 6 && rng.Intn(4) == 0}, simple(append([]int{}, perm...), sz))
 						}
 						return
 					}
@@ -132,9 +639,27 @@ func (c04) Gen(rng *rand.Rand, tier string, emit func(string)) {
 				}
 				rec(0)
 			}
+			// empty batches at every position: every subset of empty batches of 5 batches, reversed and rotated arrival
+			for mask := 0; mask < 32; mask++ {
+				sz := map[int]int{}
+				for k := 0; k < 5; k++ {
+					if mask&(1<<k) == 0 {
+						sz[k] = 1 + k%2
+					}
+				}
+				one(w, gopt{flavour: 2, csv: randCsv()}, simple([]int{4, 3, 2, 1, 0}, sz))
+				one(w, gopt{flavour: 2, csv: randCsv(), z: true}, simple([]int{2, 3, 4, 0, 1}, sz))
+			}
+			for nw := 1; nw <= 16; nw++ {
+				var ch []c04chunk
+				for k := 0; k < 20+nw; k++ {
+					ch = append(ch, c04chunk{k, 8 + (k*nw)%9, "0"})
+				}
+				one(w, gopt{workers: nw, flavour: 2, z: nw%4 == 0, csv: randCsv()}, ch)
+			}
 		}
 	}
-	n := 400
+	n := 360
 	if tier == "thorough" {
 		n = 1500
 	}
@@ -142,148 +667,345 @@ func (c04) Gen(rng *rand.Rand, tier string, emit func(string)) {
 		w := writers[rng.Intn(4)]
 		nb := rng.Intn(8)
 		orders := rng.Perm(nb)
-		sizes := map[int]int{}
-		for k := 0; k < nb; k++ {
-			switch rng.Intn(4) {
+		ch := make([]c04chunk, nb)
+		for i, k := range orders {
+			ch[i] = c04chunk{k, 0, "0"}
+			if rng.Intn(4) != 0 {
+				ch[i].n = 1 + rng.Intn(3)
+			}
+			switch rng.Intn(12) {
 			case 0:
-				sizes[k] = 0
-			default:
-				sizes[k] = 1 + rng.Intn(3)
+				ch[i].l = strconv.Itoa(1500 + rng.Intn(3000))
+			case 1:
+				ch[i].l = []string{"bm1", "bp0", "bp1", "bm3", "bp7"}[rng.Intn(5)]
+			case 2:
+				ch[i].l = strconv.Itoa(58 + rng.Intn(5) + 60*rng.Intn(3))
 			}
 		}
-		workers := 1
+		g := gopt{workers: 1, flavour: rng.Intn(4), z: rng.Intn(3) == 0, csv: randCsv()}
 		if rng.Intn(4) == 0 {
-			workers = 2 + rng.Intn(3)
+			g.workers = 2 + rng.Intn(15)
 		}
-		one(w, workers, orders, sizes)
+		if rng.Intn(10) == 0 {
+			g.se = true
+			if nb > 0 {
+				ch[rng.Intn(nb)].l = "e"
+			}
+		}
+		if rng.Intn(12) == 0 && !g.se {
+			// (with skipped empty sequences the two files of a pair are not in step: outside the property)
+			g.paired = true
+		}
+		one(w, g, ch)
 	}
 }
 
-func (c04) Exec(c string) (string, []Fail) {
-	f := strings.Fields(c)
-	if len(f) < 2 || !strings.HasPrefix(f[1], "w=") {
+func c04gunzip(b []byte) ([]byte, error) {
+	zr, err := gzip.NewReader(bytes.NewReader(b))
+	if err != nil {
+		return nil, err
+	}
+	return io.ReadAll(zr)
+}
+
+// c04frame is the naive reference of the re-sequencing writer: texts in batch order with the framing of the writer.
+func c04frame(w string, texts map[int][]byte, nb int) []byte {
+	var out []byte
+	if w == "json" {
+		out = append(out, "[\n"...)
+	}
+	first := true
+	for k := 0; k < nb; k++ {
+		t := texts[k]
+		if w == "json" {
+			if len(t) == 0 {
+				continue
+			}
+			if !first {
+				out = append(out, ",\n"...)
+			}
+			first = false
+		}
+		out = append(out, t...)
+	}
+	if w == "json" {
+		out = append(out, "\n]\n"...)
+	}
+	return out
+}
+
+func (c04) Exec(line string) (string, []Fail) {
+	c, ok := c04parse(line)
+	if !ok {
 		return "bad-op", nil
 	}
-	w := f[0]
-	workers, err := strconv.Atoi(f[1][2:])
-	if err != nil || workers < 1 {
-		return "bad-op", nil
-	}
-	type arr struct{ order, n int }
-	var arrival []arr
-	for _, p := range f[2:] {
-		q := strings.Split(p, ":")
-		if len(q) < 2 {
-			return "bad-op", nil
-		}
-		o, e1 := strconv.Atoi(q[0])
-		n, e2 := strconv.Atoi(q[1])
-		if e1 != nil || e2 != nil {
-			return "bad-op", nil
-		}
-		arrival = append(arrival, arr{o, n})
-	}
-	withQual := w == "fastq"
+	w := c.w
 	stat("writer:" + w)
-	if workers > 1 {
+	if c.workers > 1 {
 		stat("multi-worker")
 	}
-	opts := []obiformats.WithOption{obiformats.OptionsParallelWorkers(workers), obiformats.OptionCloseFile(),
-		obiformats.OptionsCompressed(false)}
+	if c.z {
+		stat("compressed")
+	}
+	if c.paired {
+		stat("paired")
+	}
+	stat(fmt.Sprintf("flavour:%d", c.flavour))
+	opts := c.options()
+	opt := obiformats.MakeOptions(opts)
+	nb := len(c.arrival)
+	shift := int(obioptions.OutputQualityShift())
 
-	// the chunk texts as the real formatter produces them (data for the model)
-	texts := make([]string, len(arrival))
-	var records [][]*obiseq.BioSequence // in batch order
-	nb := len(arrival)
-	records = make([][]*obiseq.BioSequence, nb)
-	res := guardT(10*time.Second, func() string {
-		opt := obiformats.MakeOptions(opts)
-		for i, a := range arrival {
-			b := c04Batch(a.order, a.n, withQual)
-			if a.order < nb {
-				records[a.order] = b.Slice()
-			}
-			var t []byte
-			switch w {
-			case "fasta":
-				t = obiformats.FormatFastaBatch(b, opt.FormatFastSeqHeader(), false).Bytes()
-			case "fastq":
-				t = obiformats.FormatFastqBatch(b, opt.FormatFastSeqHeader(), false).Bytes()
-			case "json":
-				t = obiformats.FormatJSONBatch(b)
-			case "csv":
-				t = obiformats.FormatCVSBatch(b, opt)
-			default:
-				return "bad-op"
-			}
-			texts[i] = fmt.Sprintf("%d:%d:%s", a.order, a.n, hx(t))
+	// the records, their description for the model, and the chunk texts of the real formatter (single thread, fresh copies)
+	descs := make([][]c04rec, nb)   // arrival order
+	byOrder := make([][]c04rec, nb) // batch order
+	texts := map[int][]byte{}
+	var model []string
+	fatalFmt := false
+	small, large := false, false
+	for i, a := range c.arrival {
+		rs := c.records(a, opt)
+		descs[i] = rs
+		if a.order < nb {
+			byOrder[a.order] = rs
 		}
-		out := &sink{}
+		t, r := c.format(a.order, rs, opt)
+		if r != "ok" {
+			fatalFmt = true
+		}
+		texts[a.order] = t
+		switch {
+		case len(t) == 0:
+			stat("chunk:empty")
+		case len(t) < 4096:
+			stat("chunk:<4096")
+			small = true
+		default:
+			stat("chunk:>=4096")
+			large = true
+		}
+		if len(t) >= 4094 && len(t) <= 4098 {
+			stat(fmt.Sprintf("chunk:len=%d", len(t)))
+		}
+		var sb strings.Builder
+		fmt.Fprintf(&sb, "%d:", a.order)
+		for j, rc := range rs {
+			if j > 0 {
+				sb.WriteByte(';')
+			}
+			q := "~"
+			if rc.qual != nil && len(rc.qual) > 0 {
+				q = hx(rc.qual)
+			}
+			info := ""
+			if w == "fasta" || w == "fastq" {
+				info = opt.FormatFastSeqHeader()(rc.build())
+			}
+			sb.WriteString(hx([]byte(rc.id)) + "," + hx(rc.seq) + "," + q + "," + hx([]byte(info)) + ",")
+			c04val{kind: 'm', m: rc.ann}.enc(&sb)
+		}
+		model = append(model, sb.String())
+	}
+	if small && large {
+		stat("case:small+large chunks")
+		if c.z {
+			stat("case:small+large chunks compressed")
+		}
+	}
+	keys := "~"
+	if len(c.keys) > 0 {
+		hk := make([]string, len(c.keys))
+		for i, k := range c.keys {
+			hk[i] = hx0(k)
+		}
+		keys = strings.Join(hk, "/")
+	}
+	se := 0
+	if c.se {
+		se = 1
+	}
+	gen := line
+	if i := strings.Index(line, " | "); i >= 0 {
+		gen = line[:i]
+	}
+	caseOverride = fmt.Sprintf("%s | sh=%d se=%d csv=%s na=%s keys=%s C %s", gen, shift, se, c.csvBits, hx([]byte(c.na)), keys, strings.Join(model, " "))
+	if nb < 2 {
+		caseTrivial = true
+	}
+	if fatalFmt {
+		// a formatter dies (log.Fatalf on an empty sequence): the whole-writer run would leave its goroutines behind
+		stat("formatter-fatal")
+		return "fatal", nil
+	}
+
+	var rows [][]string
+	var pairedOut []byte
+	res := guardT(20*time.Second, func() string {
 		it := obiiter.MakeIBioSequence()
 		it.Add(1)
 		go func() {
-			for _, a := range arrival {
-				it.Push(c04Batch(a.order, a.n, withQual))
+			for i, a := range c.arrival {
+				b := c04batch(a.order, descs[i])
+				if c.paired {
+					// the mate of record (k, j) is record (k+1000, j)
+					mates := make([]c04rec, len(descs[i]))
+					for j := range mates {
+						mates[j] = c04Record(a.order+1000, j, 0, c.flavour, c.withQual)
+						mates[j].id = descs[i][j].id
+					}
+					mb := c04batch(a.order, mates)
+					for j, s := range b.Slice() {
+						s.PairTo(mb.Slice()[j])
+					}
+				}
+				it.Push(b)
 			}
 			it.Done()
 		}()
 		go it.WaitAndClose()
 		var ni obiiter.IBioSequence
 		var err error
-		switch w {
-		case "fasta":
-			ni, err = obiformats.WriteFasta(it, out, opts...)
-		case "fastq":
-			ni, err = obiformats.WriteFastq(it, out, opts...)
-		case "json":
-			ni, err = obiformats.WriteJSON(it, out, opts...)
-		case "csv":
-			ni, err = obiformats.WriteCSV(it, out, opts...)
+		var raw []byte
+		closes, afterClose := 1, 0
+		if c.paired {
+			it.MarkAsPaired()
+			dir, e := os.MkdirTemp("", "c04p")
+			if e != nil {
+				return "tmp-err"
+			}
+			defer os.RemoveAll(dir)
+			f1, f2 := filepath.Join(dir, "fwd"), filepath.Join(dir, "rev")
+			po := append(append([]obiformats.WithOption{}, opts...), obiformats.WritePairedReadsTo(f2))
+			switch w {
+			case "fasta":
+				ni, err = obiformats.WriteFastaToFile(it, f1, po...)
+			case "fastq":
+				ni, err = obiformats.WriteFastqToFile(it, f1, po...)
+			case "json":
+				ni, err = obiformats.WriteJSONToFile(it, f1, po...)
+			case "csv":
+				ni, err = obiformats.WriteCSVToFile(it, f1, po...)
+			}
+			if err != nil {
+				return "err"
+			}
+			ni.Consume()
+			obiiter.WaitForLastPipe()
+			raw, _ = os.ReadFile(f1)
+			pairedOut, _ = os.ReadFile(f2)
+		} else {
+			out := &sink{}
+			switch w {
+			case "fasta":
+				ni, err = obiformats.WriteFasta(it, out, opts...)
+			case "fastq":
+				ni, err = obiformats.WriteFastq(it, out, opts...)
+			case "json":
+				ni, err = obiformats.WriteJSON(it, out, opts...)
+			case "csv":
+				ni, err = obiformats.WriteCSV(it, out, opts...)
+			}
+			if err != nil {
+				return "err"
+			}
+			ni.Consume()
+			obiiter.WaitForLastPipe()
+			out.mu.Lock()
+			defer out.mu.Unlock()
+			raw = append([]byte{}, out.buf.Bytes()...)
+			closes, afterClose = out.closes, out.afterClose
 		}
-		if err != nil {
-			return "err"
+		if c.z {
+			var e error
+			if raw, e = c04gunzip(raw); e != nil {
+				return fmt.Sprintf("closes=%d out=gunzip-error", closes)
+			}
+			if c.paired {
+				if pairedOut, e = c04gunzip(pairedOut); e != nil {
+					return fmt.Sprintf("closes=%d out=gunzip-error-paired", closes)
+				}
+			}
 		}
-		ni.Consume()
-		obiiter.WaitForLastPipe()
-		out.mu.Lock()
-		defer out.mu.Unlock()
-		if out.afterClose > 0 {
-			return fmt.Sprintf("closes=%d write-after-close out=%s", out.closes, hx(out.buf.Bytes()))
+		r := fmt.Sprintf("closes=%d out=%s", closes, hx(raw))
+		if afterClose > 0 {
+			r = fmt.Sprintf("closes=%d write-after-close out=%s", closes, hx(raw))
 		}
-		return fmt.Sprintf("closes=%d out=%s", out.closes, hx(out.buf.Bytes()))
+		if w == "csv" {
+			rd, err := csv.NewReader(bytes.NewReader(raw)).ReadAll()
+			rows = rd
+			if err != nil {
+				r += " rows=error"
+			} else if len(rd) == 0 {
+				r += " rows=~"
+			} else {
+				rr := make([]string, len(rd))
+				for i, row := range rd {
+					ff := make([]string, len(row))
+					for j, f := range row {
+						ff[j] = hx([]byte(f))
+					}
+					rr[i] = strings.Join(ff, ",")
+				}
+				r += " rows=" + strings.Join(rr, "/")
+			}
+		}
+		return r
 	})
-	if res == "bad-op" {
-		return res, nil
-	}
-	caseLine := fmt.Sprintf("%s w=%d %s", w, workers, strings.Join(texts, " "))
-	// the case is rewritten so that the model sees the chunk texts
-	caseOverride = caseLine
-	if len(arrival) < 2 {
-		caseTrivial = true
-	}
 	var fails []Fail
 	if strings.HasPrefix(res, "closes=") {
-		fails = c04Oracle(w, res, records)
+		fails = c04Oracle(c, opt, res, byOrder, texts, rows, pairedOut)
 	} else {
 		fails = []Fail{{Sig: w + ".outcome", Text: "writer did not complete: " + res}}
 	}
 	return res, fails
 }
 
-func c04Oracle(w, res string, records [][]*obiseq.BioSequence) []Fail {
+func c04collapse(s string) string { return strings.ReplaceAll(s, "\r\n", "\n") }
+
+func c04Oracle(c *c04case, opt obiformats.Options, res string, records [][]c04rec, texts map[int][]byte, rows [][]string, pairedOut []byte) []Fail {
+	w := c.w
 	var fails []Fail
 	f := strings.Fields(res)
 	if f[0] != "closes=1" || strings.Contains(res, "write-after-close") {
 		fails = append(fails, Fail{Sig: w + ".close", Text: "output must be closed exactly once after the last write: " + f[0]})
 	}
-	h := strings.TrimPrefix(f[len(f)-1], "out=")
+	var h string
+	for _, t := range f {
+		if strings.HasPrefix(t, "out=") {
+			h = t[4:]
+		}
+	}
 	var out []byte
 	if h != "-" {
-		out, _ = hex.DecodeString(h)
+		var err error
+		out, err = hex.DecodeString(h)
+		if err != nil {
+			return append(fails, Fail{Sig: w + ".gzip", Text: "compressed output cannot be read back: " + h})
+		}
 	}
-	var all []*obiseq.BioSequence
+	// every batch once, in increasing batch number: the texts of the formatter (run alone) with the writer's framing
+	if ref := c04frame(w, texts, len(records)); !bytes.Equal(ref, out) {
+		at := 0
+		for at < len(ref) && at < len(out) && ref[at] == out[at] {
+			at++
+		}
+		sig := w + ".order"
+		if c.z {
+			sig = w + ".order.compressed"
+		}
+		fails = append(fails, Fail{Sig: sig, Text: fmt.Sprintf("output (%d bytes) is not the chunks 0..%d in order (%d bytes); first difference at byte %d", len(out), len(records)-1, len(ref), at)})
+	}
+	var all []c04rec
 	for _, b := range records {
-		all = append(all, b...)
+		for _, r := range b {
+			if len(r.seq) == 0 && (w == "fasta" || w == "fastq") {
+				continue // skipped (se=1)
+			}
+			all = append(all, r)
+		}
+	}
+	if c.paired {
+		fails = append(fails, c04Paired(c, out, pairedOut, len(all))...)
 	}
 	switch w {
 	case "json":
@@ -295,45 +1017,147 @@ func c04Oracle(w, res string, records [][]*obiseq.BioSequence) []Fail {
 			return append(fails, Fail{Sig: "json.records", Text: fmt.Sprintf("%d objects for %d records", len(arr), len(all))})
 		}
 		for i, o := range arr {
-			if o["id"] != all[i].Id() || o["sequence"] != all[i].String() {
-				return append(fails, Fail{Sig: "json.records", Text: fmt.Sprintf("object %d is %v, expected record %s", i, o["id"], all[i].Id())})
+			sq, _ := o["sequence"].(string)
+			if o["id"] != all[i].id || sq != string(all[i].seq) {
+				return append(fails, Fail{Sig: "json.records", Text: fmt.Sprintf("object %d is %v, expected record %s", i, o["id"], all[i].id)})
+			}
+			ann, _ := o["annotations"].(map[string]interface{})
+			if len(ann) != len(all[i].ann) {
+				return append(fails, Fail{Sig: "json.annotations", Text: fmt.Sprintf("object %d has %d annotations, record %s has %d", i, len(ann), all[i].id, len(all[i].ann))})
+			}
+			for _, e := range all[i].ann {
+				switch e.v.kind {
+				case 's':
+					if ann[e.k] != e.v.s {
+						return append(fails, Fail{Sig: "json.annotations", Text: fmt.Sprintf("object %d key %q is %q, expected %q", i, e.k, ann[e.k], e.v.s)})
+					}
+				case 'i':
+					if ann[e.k] != float64(e.v.i) {
+						return append(fails, Fail{Sig: "json.annotations", Text: fmt.Sprintf("object %d key %q is %v, expected %d", i, e.k, ann[e.k], e.v.i)})
+					}
+				}
 			}
 		}
 	case "csv":
-		rows, err := csv.NewReader(bytes.NewReader(out)).ReadAll()
 		if len(records) == 0 {
-			return fails // property speaks of streams of at least one batch
+			return fails // the property speaks of streams of at least one batch
 		}
-		if err != nil {
-			return append(fails, Fail{Sig: "csv.invalid", Text: err.Error()})
+		if strings.Contains(res, "rows=error") {
+			return append(fails, Fail{Sig: "csv.invalid", Text: "encoding/csv cannot read the output back"})
 		}
-		if len(rows) != len(all)+1 || rows[0][0] != "id" {
+		header := obiformats.CSVHeader(opt)
+		if len(header) == 1 {
+			// a one-column row holding the empty string is an empty line: not a record for any CSV reader
+			for _, r := range all {
+				if s := r.build(); len(obiformats.CSVRecord(s, opt)[0]) == 0 {
+					return fails
+				}
+			}
+		}
+		if len(rows) != len(all)+1 {
 			return append(fails, Fail{Sig: "csv.rows", Text: fmt.Sprintf("%d rows for %d records (+1 header); first=%v", len(rows), len(all), rows[:min(1, len(rows))])})
 		}
+		if strings.Join(rows[0], "\x00") != strings.Join(header, "\x00") {
+			return append(fails, Fail{Sig: "csv.header", Text: fmt.Sprintf("first row is %q, expected the header %q", rows[0], header)})
+		}
 		for i, r := range rows[1:] {
-			if r[0] != all[i].Id() {
-				return append(fails, Fail{Sig: "csv.rows", Text: fmt.Sprintf("row %d is %s expected %s", i, r[0], all[i].Id())})
+			want := obiformats.CSVRecord(all[i].build(), opt)
+			for j := range want {
+				want[j] = c04collapse(want[j])
+			}
+			if strings.Join(r, "\x00") != strings.Join(want, "\x00") {
+				return append(fails, Fail{Sig: "csv.rows", Text: fmt.Sprintf("row %d is %q expected %q", i, r, want)})
 			}
 		}
 	case "fasta", "fastq":
-		mark := byte('>')
-		if w == "fastq" {
-			mark = '@'
-		}
-		var ids []string
-		for _, l := range strings.Split(string(out), "\n") {
-			if len(l) > 0 && l[0] == mark && strings.HasPrefix(l[1:], "s") {
-				ids = append(ids, strings.Fields(l[1:])[0])
-			}
-		}
+		ids, seqs := c04readSeqFile(w, out)
 		if len(ids) != len(all) {
-			return append(fails, Fail{Sig: w + ".records", Text: fmt.Sprintf("%d title lines for %d records", len(ids), len(all))})
+			return append(fails, Fail{Sig: w + ".records", Text: fmt.Sprintf("%d records read back for %d records written", len(ids), len(all))})
 		}
 		for i, id := range ids {
-			if id != all[i].Id() {
-				return append(fails, Fail{Sig: w + ".records", Text: fmt.Sprintf("record %d is %s expected %s", i, id, all[i].Id())})
+			if id != all[i].id || seqs[i] != string(all[i].seq) {
+				return append(fails, Fail{Sig: w + ".records", Text: fmt.Sprintf("record %d is %s (%d bases) expected %s (%d bases)", i, id, len(seqs[i]), all[i].id, len(all[i].seq))})
 			}
 		}
 	}
 	return fails
+}
+
+// c04readSeqFile is a naive line reader: FASTA = '>' title lines + sequence lines; FASTQ = four-line records.
+func c04readSeqFile(w string, out []byte) (ids, seqs []string) {
+	lines := strings.Split(string(out), "\n")
+	if w == "fastq" {
+		for i := 0; i+3 < len(lines); i += 4 {
+			if len(lines[i]) == 0 || lines[i][0] != '@' || lines[i+2] != "+" || len(lines[i+3]) != len(lines[i+1]) {
+				return append(ids, "<malformed at line "+strconv.Itoa(i)+">"), append(seqs, "")
+			}
+			ids = append(ids, strings.SplitN(lines[i][1:], " ", 2)[0])
+			seqs = append(seqs, lines[i+1])
+		}
+		return
+	}
+	for _, l := range lines {
+		if len(l) > 0 && l[0] == '>' {
+			ids = append(ids, strings.SplitN(l[1:], " ", 2)[0])
+			seqs = append(seqs, "")
+		} else if len(ids) > 0 {
+			seqs[len(seqs)-1] += l
+		} else if len(l) > 0 {
+			return []string{"<text before the first title line>"}, []string{""}
+		}
+	}
+	return
+}
+
+// c04Paired: the two files hold the same number of records with the same identifiers in the same order.
+func c04Paired(c *c04case, fwd, rev []byte, n int) []Fail {
+	idsOf := func(b []byte) ([]string, bool) {
+		switch c.w {
+		case "fasta", "fastq":
+			ids, _ := c04readSeqFile(c.w, b)
+			return ids, true
+		case "json":
+			var arr []map[string]interface{}
+			if json.Unmarshal(b, &arr) != nil {
+				return nil, false
+			}
+			var ids []string
+			for _, o := range arr {
+				s, _ := o["id"].(string)
+				ids = append(ids, s)
+			}
+			return ids, true
+		default:
+			rows, err := csv.NewReader(bytes.NewReader(b)).ReadAll()
+			if err != nil || len(rows) == 0 {
+				return nil, err == nil && n == 0
+			}
+			if c.csvBits[0] != '1' {
+				return nil, true
+			}
+			var ids []string
+			for _, r := range rows[1:] {
+				ids = append(ids, r[0])
+			}
+			return ids, true
+		}
+	}
+	a, ok1 := idsOf(fwd)
+	b, ok2 := idsOf(rev)
+	if !ok1 || !ok2 {
+		return []Fail{{Sig: c.w + ".paired", Text: "a file of the pair cannot be read back"}}
+	}
+	if c.w == "csv" && c.csvBits[0] != '1' {
+		return nil
+	}
+	sort.Strings(nil)
+	if len(a) != len(b) || len(a) != n {
+		return []Fail{{Sig: c.w + ".paired", Text: fmt.Sprintf("forward file has %d records, reverse file %d, %d written", len(a), len(b), n)}}
+	}
+	for i := range a {
+		if a[i] != b[i] {
+			return []Fail{{Sig: c.w + ".paired", Text: fmt.Sprintf("record %d: forward %s, reverse %s", i, a[i], b[i])}}
+		}
+	}
+	return nil
 }
